@@ -334,6 +334,15 @@ def odd_corners():
     yield 'manifest_self_reference', mk(flat + [('L', 'MANIFEST Manifest 0')])
     yield 'manifest_cycle', mk(None, specs=[MSpec(TOP, flat + [('L', 'MANIFEST d/Manifest 22')]),
                                               MSpec('d/Manifest', [('L', 'MANIFEST ../Manifest 0')])])
+    # two byte-identical lines in a sub-Manifest + a contradicting entry for the same file in the parent, the file gone
+    _l = 'DATA f1 3 SHA1 fe05bcdcdc4928012781a5f1a2a77cbb5398e106'
+    _files = {k: v for k, v in B.items() if k != 'd/f1'}
+    yield 'exact_dup_in_sub_contradicting_parent_file_gone', mk(None, files=_files, specs=[
+        MSpec(TOP, [F(p) for p in sorted(_files) if not p.startswith('d/')] + [('M', 'd/Manifest', H1), ('L', 'DATA d/f1 5 SHA1 ' + 'a' * 40)]),
+        MSpec('d/Manifest', [('L', _l), ('L', _l), F('d/e/f2')])])
+    yield 'exact_dup_in_sub_contradicting_parent', mk(None, specs=[
+        MSpec(TOP, [F(p) for p in sorted(B) if not p.startswith('d/')] + [('M', 'd/Manifest', H1), ('L', 'DATA d/f1 5 SHA1 ' + 'a' * 40)]),
+        MSpec('d/Manifest', [('L', _l), ('L', _l), F('d/e/f2')])])
     yield 'unreferenced_sub_manifest', mk(flat, raw={'d/Manifest': b'DATA f1 3 SHA1 fe05bcdcdc4928012781a5f1a2a77cbb5398e106\n'})
     yield 'unreferenced_sub_manifest_deep', mk(flat, raw={'d/e/Manifest': b'DATA f2 4\n'})
     yield 'unreferenced_sub_manifest_two', mk(flat, raw={'d/Manifest': b'DATA f1 3\n', 'd/e/Manifest.gz':
